@@ -7,13 +7,13 @@ export GOFLAGS=-mod=mod GOPROXY=off GOSUMDB=off GOTOOLCHAIN=local
 WT=$(mktemp -d /tmp/cs-XXXXXX)
 git -C /repo worktree add -q --detach "$WT" HEAD || exit 2
 trap 'git -C /repo worktree remove --force "$WT" >/dev/null 2>&1' EXIT
-bash "$S/demo.sh" "$WT" > "$WT/../$(basename $WT).head.log" 2>&1; H=$?
+( cd "$WT" && bash "$S/demo.sh" "$WT" ) > "$WT/../$(basename $WT).head.log" 2>&1; H=$?
 ( cd "$WT" && git checkout -q -- . && git clean -fdq )
 ( cd "$WT" && go test -vet=off -count=1 -timeout 10m ./... 2>&1 | grep -E '^(ok|FAIL|---)' | sed 's/\t[0-9.]*s$//; s/(cached)//' | sort > ../$(basename $WT).base.txt )
 git -C "$WT" apply "$S/patch.diff" || { echo "NOT-CONFIRMED: patch does not apply"; exit 1; }
 ( cd "$WT" && GODEBUG=goindex=0 go build -overlay /verif/work/overlay0.json ./... ) || { echo "NOT-CONFIRMED: does not build"; exit 1; }
 ( cd "$WT" && go test -vet=off -count=1 -timeout 10m ./... 2>&1 | grep -E '^(ok|FAIL|---)' | sed 's/\t[0-9.]*s$//; s/(cached)//' | sort > ../$(basename $WT).mut.txt )
-bash "$S/demo.sh" "$WT" > "$WT/../$(basename $WT).mut.log" 2>&1; M=$?
+( cd "$WT" && bash "$S/demo.sh" "$WT" ) > "$WT/../$(basename $WT).mut.log" 2>&1; M=$?
 D=$(diff "$WT/../$(basename $WT).base.txt" "$WT/../$(basename $WT).mut.txt")
 rm -f "$WT/../$(basename $WT)".*
 if [ $H -eq 0 ] && [ $M -ne 0 ] && [ -z "$D" ]; then echo "CONFIRMED demo_head=$H demo_mut=$M baseline_unchanged"; exit 0; fi
